@@ -225,6 +225,23 @@ def chunk_sites(tree):
              f'{fn.name}: {var} is not the chunk size handed to the backend stream call')
         wraps = [n for n in ast.walk(fn) if isinstance(n, ast.Call) and pyast.unparse(n.func) == 'rate_limiter.wrap']
         need(len(wraps) == 1, f'{fn.name}: expected one rate_limiter.wrap')
+        # the stream handed to the backend is wrapped whenever there is a limiter - no further condition:
+        #     if rate_limiter is not None: limited_wrapper = rate_limiter.wrap(stream)  else: limited_wrapper = stream
+        guards = [n for n in ast.walk(fn) if isinstance(n, ast.If) and any(w in ast.walk(n) for w in wraps)
+                  and not any(isinstance(m, ast.If) and m is not n and any(w in ast.walk(m) for w in wraps) for m in ast.walk(n))]
+        need(len(guards) == 1 and pyast.unparse(guards[0].test) == 'rate_limiter is not None'
+             and [pyast.unparse(s) for s in guards[0].body] == ['limited_wrapper = rate_limiter.wrap(stream)']
+             and [pyast.unparse(s) for s in guards[0].orelse] == ['limited_wrapper = stream'],
+             f'{fn.name}: the stream is not wrapped unconditionally when a limiter exists')
+        # ... and it is the wrapped stream (possibly under progress wrappers) that reaches the backend, never `stream` itself
+        need(pyast.unparse(used[0].args[2]) == 'tqdm_wrapper', f'{fn.name}: the backend is not handed tqdm_wrapper')
+        tq = [n for n in ast.walk(fn) if isinstance(n, ast.Call) and pyast.unparse(n.func) in ('utils.TQDMIOReader', 'utils.TQDMIOWriter')]
+        need(len(tq) == 1 and tq[0].args and pyast.unparse(tq[0].args[0]) in ('limited_wrapper', 'callback_wrapper'),
+             f'{fn.name}: progress wrapper is not built over the limited stream')
+        if pyast.unparse(tq[0].args[0]) == 'callback_wrapper':
+            cb = [n for n in ast.walk(fn) if isinstance(n, ast.Assign) and pyast.unparse(n.targets[0]) == 'callback_wrapper']
+            need(len(cb) == 1 and isinstance(cb[0].value, ast.Call) and len(cb[0].value.args) >= 2
+                 and pyast.unparse(cb[0].value.args[1]) == 'limited_wrapper', f'{fn.name}: callback wrapper is not built over the limited stream')
         sites.append((fn.name, div))
     need(total_ctor == len(sites) and total_wrap == len(sites), 'limiter constructed or used outside the recognised sites')
     return sites
@@ -279,6 +296,7 @@ def rate_limit_gen():
     out.append('Definition tqdm_wrappers_return_underlying_result : bool := true.')
     out.append('')
     sites = chunk_sites(pyast.module(REPOSITORY))
+    out.append('Definition rate_limited_sites_wrap_unconditionally : bool := true.')
     out.append('Definition rate_limited_sites : list (string * Z) := ['
                + '; '.join(f'("{n}"%string, {d}%Z)' for n, d in sites) + '].')
     return '\n'.join(out) + '\n'
